@@ -47,9 +47,10 @@ TemplateOk(x, bytes) ==
 
 TAml ==
   /\ E.ev = "aml"
+  /\ Judge("C18", ~E.panic => TreeFits(E.tree), AInfo("oversize_not_refused"))
   /\ IF E.panic
-     THEN /\ Judge("C06", FALSE, AInfo("unexpected_panic"))
-          /\ Judge("C10", ~(IsDesc(E.tree) \/ E.tree.t = "ResourceTemplate"), AInfo("unexpected_panic"))
+     THEN /\ Judge("C06", ~TreeFits(E.tree), AInfo("unexpected_panic"))
+          /\ Judge("C10", ~(IsDesc(E.tree) \/ E.tree.t = "ResourceTemplate") \/ ~TreeFits(E.tree), AInfo("unexpected_panic"))
      ELSE IF Has(E, "bytes")
      THEN LET b == E.bytes IN
           /\ Judge("C06", LET p == Parse(b, ArityTable(E.arities)) IN p.ok /\ p.t = Norm(E.tree), AInfo("parse_back"))
@@ -71,7 +72,8 @@ TAml ==
                          nb == NameOf(E.tree.path) IN
                      Len(b) >= pre + Len(nb) /\ Slice(b, pre, Len(nb)) = nb, AInfo("name_in_object"))
      ELSE \* summary event of a very large object: only the framing can be judged (C07)
-          Judge("C07", E.tree.t \in DOMAIN FramedOpLen => CallSitePkgOk(E.head, E.len, FramedOpLen[E.tree.t]), AInfo("call_site_pkglength_large"))
+          /\ Judge("C07", E.tree.t \in DOMAIN FramedOpLen => CallSitePkgOk(E.head, E.len, FramedOpLen[E.tree.t]), AInfo("call_site_pkglength_large"))
+          /\ Judge("C18", E.tree.t \in DOMAIN FramedOpLen => CallSitePkgOk(E.head, E.len, FramedOpLen[E.tree.t]), AInfo("length_field_disagrees_with_content"))
 
 ---------------------------------------------------------------------------
 \* C15: two construction paths
